@@ -1680,6 +1680,15 @@ SKELETON_GROUPS = {
                                           "get_lat_trans_compr_matrix_O3", "_get_lat_trans_compr_matrix_O3"]),
                    ("utils/utils_O4.py", ["get_atomic_lat_trans_decompr_indices_O4", "get_lat_trans_decompr_indices_O4",
                                           "get_lat_trans_compr_matrix_O4", "_get_lat_trans_compr_matrix_O4"]),
+                   ("utils/matrix_tools_O2.py", ["N3N3_to_NNand33", "projector_permutation_lat_trans_O2"]),
+                   ("utils/matrix_tools_O3.py", ["_N3N3N3_to_NNNand333",
+                                                 "_construct_projector_permutation_lat_trans_from_combinations",
+                                                 "_projector_permutation_lat_trans_unique_index1",
+                                                 "_projector_permutation_lat_trans_unique_index2",
+                                                 "_projector_permutation_lat_trans_unique_index3",
+                                                 "_projector_not_reduced", "projector_permutation_lat_trans_O3"]),
+                   ("utils/matrix_tools_O4.py", ["N3N3N3N3_to_NNNNand3333", "projector_permutation_lat_trans_O4"]),
+                   ("utils/matrix_tools_O1.py", None),
                    ("utils/utils_O1.py", None), ("utils/utils.py", ["get_indep_atoms_by_lat_trans"]),
                    ("utils/matrix_tools.py", None)],
     "SumRule": [("utils/matrix_tools_O2.py", ["optimize_batch_size_sum_rules_O2", "compressed_projector_sum_rules_O2",
